@@ -4,6 +4,7 @@ package vh
 
 import (
 	"bufio"
+	"bytes"
 	"encoding/json"
 	"fmt"
 	"os"
@@ -38,6 +39,10 @@ func (t *Trace) Emit(ev M) {
 	if err != nil {
 		fmt.Fprintln(os.Stderr, "trace marshal:", err)
 		os.Exit(2)
+	}
+	// TLC's Json module rejects null: every null here is a nil slice
+	if bytes.Contains(b, []byte(":null")) {
+		b = bytes.ReplaceAll(b, []byte(":null"), []byte(":[]"))
 	}
 	t.mu.Lock()
 	t.w.Write(b)
@@ -88,7 +93,7 @@ func (r *Rand) Bytes(n int) []byte {
 	return b
 }
 
-var frameRe = regexp.MustCompile(`(?m)^(github\.com/gopacket/gopacket[^\s(]*)\(.*\n\s+(\S+):(\d+)`)
+var frameRe = regexp.MustCompile(`(?m)^(github\.com/gopacket/gopacket\S*?)\([^()]*\)\n\s+(\S+):(\d+)`)
 
 // PanicSite returns "function|file:line" of the innermost gopacket frame of the
 // current stack (call from a deferred recover handler).
@@ -147,4 +152,30 @@ func WithTimeout(d time.Duration, f func()) bool {
 func Fatal(a ...interface{}) {
 	fmt.Fprintln(os.Stderr, a...)
 	os.Exit(2)
+}
+
+// SiteSig turns "func|file:line" into "func|<trimmed source text of that line>" so that a
+// known-finding signature survives line shifts.  repo is the root of the gopacket tree.
+func SiteSig(repo, site string) string {
+	i := strings.LastIndex(site, "|")
+	if i < 0 {
+		return site
+	}
+	fn, loc := site[:i], site[i+1:]
+	j := strings.LastIndex(loc, ":")
+	if j < 0 {
+		return site
+	}
+	file, lineS := loc[:j], loc[j+1:]
+	var line int
+	fmt.Sscanf(lineS, "%d", &line)
+	b, err := os.ReadFile(repo + "/" + file)
+	if err != nil {
+		return fn + "|" + file
+	}
+	ls := strings.Split(string(b), "\n")
+	if line < 1 || line > len(ls) {
+		return fn + "|" + file
+	}
+	return fn + "|" + strings.TrimSpace(ls[line-1])
 }
